@@ -300,9 +300,16 @@ func (s *EMTState) edgeMultiComputeRecordSpecs(raw []RawType, frameIndexOfraw0 F
 	// EMTState.valid, which is checked on reset, makes sue npre and (nsamp-npre) are each 4 or greater, so the kink
 	// model can always look at least 4 samples back and 4 forward
 	maxNmonotone := maxLookahead
-	iFirst := int32(s.nextFrameIndexToInspect - frameIndexOfraw0)
+	// Take the difference of the 64-bit frame numbers before narrowing it: narrowed first, a reset state
+	// (nextFrameIndexToInspect == 0) goes unnoticed whenever the frame number of raw[0] is just below
+	// (or in the upper half below) a multiple of 2^32.
+	offset := int64(s.nextFrameIndexToInspect) - int64(frameIndexOfraw0)
+	iFirst := int32(math.MaxInt32)
+	if offset < math.MaxInt32 {
+		iFirst = int32(offset)
+	}
 	recordSpecs := make([]RecordSpec, 0)
-	if iFirst < maxLookback { // state has been reset
+	if offset < int64(maxLookback) { // state has been reset
 		iFirst = maxLookback
 		if s.enableZeroThreshold {
 			iFirst++ // the kink model may move a trigger 1 sample earlier; its record must still start inside raw
